@@ -135,6 +135,10 @@ def _site(tb):
         fn = fs.filename.replace("\\", "/")
         if "/ioflo/" in fn:
             base = os.path.basename(fn)
+            if fs.name == "_prepio" and "/trim/interior/" in fn:
+                # legacy deed interface: the deed's _prepio receives the script's per/for values unchecked;
+                # whatever fails below it has this one root cause
+                return "legacy-deed:%s:_prepio" % base, "%s line %s: %s" % (base, fs.lineno, (fs.line or "").strip())
             site = "%s:%s" % (base, fs.name)
             detail = "%s line %s: %s" % (base, fs.lineno, (fs.line or "").strip())
             if base == "building.py" and fs.name.startswith("build") and fs.name != "build" and not verb:
@@ -262,8 +266,8 @@ def plan(tier):
     if tier == "quick":
         return [{"kind": k, "i": i, "n": 800} for i, k in enumerate(mix)]
     shards = []
-    for rep in range(6):
-        shards += [{"kind": k, "i": rep * 8 + i, "n": 8500} for i, k in enumerate(mix)]
+    for rep in range(4):
+        shards += [{"kind": k, "i": rep * 8 + i, "n": 8000} for i, k in enumerate(mix)]
     return shards
 
 
